@@ -748,6 +748,11 @@ def cli_cases(g, group, thorough):
     if group == "run":
         for _ in range(n(300, 3000)):
             out.append(("-", run_prog(g), ""))
+        # programs longer than 65536 instructions: calls, jumps and labels beyond the 16-bit index range
+        big = "def f {\ninc dx\n}\nstart:\n" + "nop\n" * 65540 + "call f\nfar_lab:\ninc bx\ncmp bx, 2\njne far_lab\ncall f\nprint reg\nhlt\n"
+        out.append(("-", big, ""))
+        if thorough:
+            out.append(("-", "start:\njmp over\n" + "inc ax\n" * 70000 + "over:\ncall g\nprint reg\nhlt\ndef g {\ndec cx\n}\n", ""))
         for f in sorted(os.listdir(os.path.join(REPO, "examples"))):
             if f.endswith(".s"):
                 out.append(("-", open(os.path.join(REPO, "examples", f)).read(), "abc\nhello\n"))
@@ -954,7 +959,12 @@ def cli_cases(g, group, thorough):
                         "macro load(dst,src) -> mov dst, src <-\nstart:\nload(bx)\n", "macro load(dst,src) -> mov dst, src <-\nstart:\nload()\n",
                         "macro load(dst,src) -> mov dst, src <-\nstart:\nload(bx,cx,dx,ax)\nprint reg\n",
                         "macro inner(a,b,c) -> mov a, b add a, c <-\nmacro outer(x) -> inner(x) <-\nstart:\nouter(ax)\n",
-                        "macro z() -> nop <-\nstart:\nz(ax)\nz()\n", "macro one(a) -> inc a <-\nstart:\none(,)\n", "macro one(a) -> inc a <-\nstart:\none(ax,)\n"]:
+                        "macro z() -> nop <-\nstart:\nz(ax)\nz()\n", "macro one(a) -> inc a <-\nstart:\none(,)\n", "macro one(a) -> inc a <-\nstart:\none(ax,)\n",
+                        "macro one(a) -> inc a <-\nstart:\none(ax,bx,cx,dx,si,di,bp,ax,bx,cx,dx,si)\nprint reg\n",
+                        "macro z() -> nop <-\nstart:\nz(1,2,3,4,5,6,7,8,9,10,11,12,13,14,15,16,17,18,19,20,21,22)\n",
+                        "macro w(a,b,c,d,e,f,g,h,i,j,k,l) -> add ax, a add ax, l add ax, k <-\nstart:\nw(1,2,3,4,5,6,7,8,9,10,11,12)\nprint reg\n",
+                        "macro w(a,b,c,d,e,f,g,h,i,j,k,l) -> add ax, a add ax, l <-\nstart:\nw(1,2,3,4,5,6,7,8,9,10,11)\n",
+                        "macro w(a,b,c,d,e,f,g,h,i,j,k) -> mov ax, k <-\nmacro v(x) -> w(x,x,x,x,x,x,x,x,x,x,7) <-\nstart:\nv(3)\nprint reg\n"]:
             out.append(("-", special, ""))
         # files that are not valid UTF-8 (raw bytes: the request carries them percent-encoded)
         for raw in [b"start:\nmov ax, 1 ; \xff\xfe\nprint reg\n", b"\xff", b"start:\n\xc3", b"\xc0\xafstart:\nhlt\n", b"x: db \"\xe9\"\nstart:\n",
